@@ -22,6 +22,70 @@ class ClassInfo:
     classmethods: Dict[str, ast.FunctionDef] = field(default_factory=dict)
 
 
+class _NameSubst(ast.NodeTransformer):
+    def __init__(self, mapping):
+        self.m = mapping
+
+    def visit_Name(self, n):
+        if n.id in self.m and isinstance(n.ctx, ast.Load):
+            import copy as _c
+
+            return ast.copy_location(_c.deepcopy(self.m[n.id]), n)
+        return n
+
+
+def expand_class_aliases(tree: ast.Module) -> None:
+    """Class-level `name = other_method` and `name = partialmethod(method, a, b)` become real method definitions
+    (a copy of the method; for partialmethod with the leading parameters replaced by the given expressions), so that
+    everything that reads classes method by method sees them.  In place; nothing is executed."""
+    import copy as _c
+
+    for cls in [n for n in ast.walk(tree) if isinstance(n, ast.ClassDef)]:
+        defs = {}
+        new_body = []
+        for st in cls.body:
+            if isinstance(st, ast.FunctionDef):
+                defs[st.name] = st
+                new_body.append(st)
+                continue
+            made = None
+            if isinstance(st, ast.Assign) and len(st.targets) > 1 and all(isinstance(t_, ast.Name) for t_ in st.targets) and isinstance(st.value, ast.Name) and st.value.id in defs:
+                # a = b = method
+                for t_ in st.targets:
+                    m_ = _c.deepcopy(defs[st.value.id])
+                    m_.name = t_.id
+                    defs[t_.id] = m_
+                    new_body.append(m_)
+                continue
+            if isinstance(st, ast.Assign) and len(st.targets) == 1 and isinstance(st.targets[0], ast.Name):
+                tgt, v = st.targets[0].id, st.value
+                if isinstance(v, ast.Name) and v.id in defs:
+                    made = _c.deepcopy(defs[v.id])
+                    made.name = tgt
+                elif isinstance(v, ast.Call) and (getattr(v.func, "id", None) == "partialmethod" or getattr(v.func, "attr", None) == "partialmethod") and v.args and isinstance(v.args[0], ast.Name) and v.args[0].id in defs and not v.keywords:
+                    base = defs[v.args[0].id]
+                    extra = v.args[1:]
+                    params = base.args.args
+                    static = any(isinstance(d, ast.Name) and d.id == "staticmethod" for d in base.decorator_list)
+                    first = 0 if static else 1
+                    if len(extra) <= len(params) - first and not any(isinstance(x, ast.Starred) for x in extra):
+                        made = _c.deepcopy(base)
+                        made.name = tgt
+                        bound = {params[first + i].arg: extra[i] for i in range(len(extra))}
+                        made.args.args = made.args.args[:first] + made.args.args[first + len(extra) :]
+                        made.body = [_NameSubst(bound).visit(b) for b in made.body]
+            if made is not None:
+                defs[tgt] = made
+                new_body.append(made)
+            else:
+                new_body.append(st)
+        cls.body = new_body
+    ast.fix_missing_locations(tree)
+
+
+NORMALISED_MODULES = {"coco/b09/visitors.py"}
+
+
 class Module:
     def __init__(self, rel: str, path: Path):
         self.rel = rel
@@ -31,6 +95,13 @@ class Module:
             self.tree = ast.parse(self.source, filename=str(path))
         except SyntaxError as e:
             raise AnalysisError("ANCHOR", rel, f"does not parse: {e}")
+        expand_class_aliases(self.tree)
+        if rel in NORMALISED_MODULES:
+            # the passes are read in flattened form: private helper methods and small module-level helpers inlined,
+            # module-level constants propagated (see sa/normalise.py); reports keep the line of the call site
+            from .normalise import normalise_module
+
+            self.tree = normalise_module(self.tree)
         self.functions: Dict[str, ast.FunctionDef] = {}
         self.classes: Dict[str, ClassInfo] = {}
         self.assigns: Dict[str, ast.AST] = {}
@@ -179,9 +250,22 @@ class PyFacts:
         for rel, m in self.modules.items():
             if not rel.startswith("coco/b09/"):
                 continue
+            ann = set()
+            for n in ast.walk(m.tree):
+                # annotations and isinstance() tests mention classes without building them
+                for a_ in ([n.annotation] if isinstance(n, (ast.arg, ast.AnnAssign)) and n.annotation is not None else []) + ([n.returns] if isinstance(n, ast.FunctionDef) and n.returns is not None else []):
+                    ann |= {id(x) for x in ast.walk(a_)}
+                if isinstance(n, ast.Call) and isinstance(n.func, ast.Name) and n.func.id == "isinstance" and len(n.args) == 2:
+                    ann |= {id(x) for x in ast.walk(n.args[1])}
+                if isinstance(n, ast.ClassDef):
+                    for b_ in n.bases:
+                        ann |= {id(x) for x in ast.walk(b_)}
             for n in ast.walk(m.tree):
                 if isinstance(n, ast.Call) and isinstance(n.func, ast.Name) and n.func.id in self.classes:
                     out.setdefault(n.func.id, []).append((rel, n.lineno))
+                elif isinstance(n, ast.Name) and isinstance(n.ctx, ast.Load) and n.id in self.classes and id(n) not in ann and not isinstance(getattr(n, "_parent_call", None), ast.Call):
+                    # a class handed around as a value (argument, table entry): it can be instantiated through that value
+                    out.setdefault(n.id, []).append((rel, n.lineno))
         return out
 
 
